@@ -386,7 +386,10 @@ class FakeNet:
     def server_key_for(self, addr):
         if isinstance(addr, tuple):
             host = self.ip2host.get(addr[0], addr[0])
-            return (host, addr[1])
+            port = addr[1]
+            if isinstance(port, str) and port.isdigit():
+                port = int(port)          # the ElastiCache client passes ports as text
+            return (host, port)
         return addr
 
     def addr_name(self, addr):
